@@ -8,9 +8,9 @@ MUTANTS = []
 CLAIMS = {}
 NOT_APPLICABLE = {}
 
-def prop(pid, level, explanation, harnesses, trusted=(), assumptions=(), jobs=None):
+def prop(pid, level, explanation, harnesses, trusted=(), assumptions=(), jobs=None, mc=None):
     PROPERTIES[pid] = {"level": level, "explanation": explanation, "harnesses": harnesses,
-                       "trusted": list(trusted), "assumptions": list(assumptions), "jobs": jobs}
+                       "trusted": list(trusted), "assumptions": list(assumptions), "jobs": jobs, "mc": mc}
 
 def mut(pid, name, edits, expect, only=None, **kw):
     MUTANTS.append(dict(pid=pid, name=name, edits=edits, expect=expect, only=only, **kw))
